@@ -408,6 +408,7 @@ func ConcProfileFor(name string, seed int64) ConcProfile {
 		p.Idx = []IdxDesc{{"big", "a", "ge", 5}}
 		p.Writers = 2 + r.Intn(2)
 		p.Txns = 1 + r.Intn(2)
+		p.Snapshot = r.Intn(2) == 0 // the stream feeds the replica whether or not a snapshot is recording the same commits
 	case "c06dfs":
 		p.Cols = []ColDesc{{"a", "int", "add", "int"}}
 		p.Idx = []IdxDesc{{"big", "a", "ge", 5}}
